@@ -102,6 +102,14 @@ func candidates(n *Expr) []*Expr {
 				out = append(out, &c)
 			}
 		}
+	case "tuplein":
+		if len(n.Args) > 4 {
+			for k := 2; k+1 < len(n.Args); k += 2 {
+				c := *n
+				c.Args = append(append([]*Expr{}, n.Args[:k]...), n.Args[k+2:]...)
+				out = append(out, &c)
+			}
+		}
 	case "case":
 		if len(n.Args) > 2 {
 			c := *n
